@@ -1889,7 +1889,12 @@ class BreakAction(Action, HasDefaultDebugInfo):
         return True
 
     def get_target_override_targets(self):
-        return [self.refers_to.end_state]
+        # the loop's after-break actions are generated in place of the break, so whatever they can jump to
+        # (e.g. the out-of-space handler of an append) is reachable from here too
+        targets = [self.refers_to.end_state]
+        for action in self.replacement_actions():
+            targets.extend(action.get_target_override_targets())
+        return targets
 
     def get_target_override_mode(self):
         return ActionOverrideMode.ALWAYS_GOTO_OTHER
